@@ -76,9 +76,15 @@ pub unsafe fn verif_panic() {
 const SLOTS: usize = 1 << 14;
 static TRACKING: AtomicBool = AtomicBool::new(false);
 static NEXT: AtomicUsize = AtomicUsize::new(0);
+static BASE: AtomicUsize = AtomicUsize::new(0);
 static mut TABLE: [(usize, usize, usize, u8); SLOTS] = [(0, 0, 0, 0); SLOTS]; // (ptr, size, align, state 1=live 2=freed)
 
 pub struct Tracking;
+
+/// Allocations made before this call (thread start-up) are not counted by `live_tracked`.
+pub fn set_baseline() {
+    BASE.store(NEXT.load(Ordering::SeqCst), Ordering::SeqCst);
+}
 
 pub fn set_tracking(on: bool) {
     TRACKING.store(on, Ordering::SeqCst);
@@ -140,7 +146,7 @@ pub fn live_tracked() -> (usize, usize) {
     let n = NEXT.load(Ordering::Relaxed).min(SLOTS);
     let mut cnt = 0;
     let mut bytes = 0;
-    for i in 0..n {
+    for i in BASE.load(Ordering::Relaxed)..n {
         let e = unsafe { TABLE[i] };
         if e.3 == 1 {
             cnt += 1;
